@@ -765,6 +765,11 @@ impl PGen {
                 format!("F{}", (b'a' + i as u8) as char)
             } else if depth == 0 {
                 format!("{}", r.range(0, 3))
+            } else if k < 69 {
+                // repeat with a literal or a run-time count (0 included)
+                let l = 1 + r.below(2);
+                let cnt = if r.chance(1, 2) { format!("{}", r.range(0, 3)) } else { "⌵".to_string() };
+                format!("⍥({}) {cnt}", self.body(r, depth - 1, l))
             } else if k < 90 {
                 let m = *r.pick(&["⊙", "⋅", "⟜", "⊸", "⤙", "⤚", "◡", "∩", "⍩"]);
                 let l = 1 + r.below(3);
